@@ -2,6 +2,7 @@ package main
 
 import (
 	"fmt"
+	"go/token"
 	"go/types"
 	"math/big"
 	"sort"
@@ -54,6 +55,7 @@ func (ft *FT) translate() {
 			nullable[n] = true
 		}
 	}
+	nilTested := nilComparedParams(fn)
 	for _, p := range fn.Params {
 		v := b.declVal(p)
 		b.params = append(b.params, v)
@@ -62,6 +64,11 @@ func (ft *FT) translate() {
 			case *types.Pointer:
 				ft.fact(Not(Eq(v.T, L("nil"))))
 				ft.nonNil[v.T.String()] = true
+				// A-NONNIL would silently kill a branch the code has on purpose
+				if nilTested[p] && !ft.collect {
+					ft.obls = append(ft.obls, &Obligation{Name: "vacuity:nil-branch " + p.Name(), Kind: "shape", Tags: ft.allTags(), Guard: tTrue, Goal: tFalse,
+						Src: "parameter " + p.Name() + " is compared with nil in the body but assumed non-nil: declare it `nullable`", Fn: fn.String()})
+				}
 			}
 		}
 		ft.paramCVs[p.Name()] = &CV{T: v.T, Type: p.Type(), Sort: ft.sortOf(p.Type())}
@@ -89,6 +96,16 @@ func (ft *FT) translate() {
 			}
 			ft.fact(g)
 			reqs = append(reqs, g)
+		}
+		for _, r := range ft.con.Presumes {
+			g, err := env.EvalBool(r.Expr)
+			if err != nil {
+				ft.shapeFail(r, err)
+				continue
+			}
+			ft.fact(g)
+			reqs = append(reqs, g)
+			ft.trusted[fn.String()+" (presumes: "+r.Src+")"] = true
 		}
 		if len(reqs) > 0 {
 			ft.oblige(&Obligation{Name: "vacuity:requires-satisfiable", Kind: "vacuity", Tags: ft.allTags(), Guard: tTrue, Goal: tFalse, ExpectSat: true, Src: "conjunction of requires is satisfiable"})
@@ -175,6 +192,16 @@ func (ft *FT) exit(b *Body) {
 	env := ft.fnEnv(b, st)
 	b.bindResults(env, fn.Signature, res)
 	ft.exitEnv = env
+	// `given` clauses: stated assumptions about the execution, assumed at exit
+	for _, c := range ft.con.Given {
+		g, err := env.EvalBool(c.Expr)
+		if err != nil {
+			ft.shapeFail(c, err)
+			continue
+		}
+		ft.fact(Imp(exit, g))
+		ft.trusted[fn.String()+" (given: "+c.Src+")"] = true
+	}
 	if len(ft.con.Ensures) > 0 {
 		ft.oblige(&Obligation{Name: "vacuity:exit-reachable", Kind: "vacuity", Tags: ft.allTags(), Guard: exit, Goal: tFalse, ExpectSat: true, Src: "some return is reachable"})
 	}
@@ -538,4 +565,25 @@ func invFactUsable(f invFact, o *Obligation) bool {
 		return o.Kind == "inv-pres" && o.loopRole != nil && o.loopRole.Blocks[fb]
 	}
 	return false
+}
+
+// nilComparedParams: pointer parameters the body compares with nil.
+func nilComparedParams(fn *ssa.Function) map[*ssa.Parameter]bool {
+	out := map[*ssa.Parameter]bool{}
+	for _, blk := range fn.Blocks {
+		for _, in := range blk.Instrs {
+			bo, ok := in.(*ssa.BinOp)
+			if !ok || bo.Op != token.EQL && bo.Op != token.NEQ {
+				continue
+			}
+			for _, pair := range [][2]ssa.Value{{bo.X, bo.Y}, {bo.Y, bo.X}} {
+				p, isP := pair[0].(*ssa.Parameter)
+				c, isC := pair[1].(*ssa.Const)
+				if isP && isC && c.IsNil() {
+					out[p] = true
+				}
+			}
+		}
+	}
+	return out
 }
